@@ -62,15 +62,33 @@ def file_api_cases(ck, cases, nmax):
             if idx % 4 == 1:        # a last line without newline is still a line
                 text = text.rstrip('\n'); ck.count('file api: input without final newline')
             open(inp, 'w').write(text)
+            inputs, split = inp, False
+            nonempty = [i for i, s in enumerate(seqs) if s]
+            if idx % 5 == 2 and len(nonempty) >= 3 and 'written' not in c:
+                # the same records given as two (or three) input files: rows must still come out in input order under their names
+                cut = ck.rng.range(2, len(seqs) - 1)
+                cuts = [0, cut] + ([ck.rng.range(cut + 1, len(seqs))] if len(seqs) - cut >= 2 and ck.rng.chance(1, 3) else []) + [len(seqs)]
+                parts = []
+                for pi in range(len(cuts) - 1):
+                    pf = os.path.join(tmp, 'in%d_%d.fa' % (idx, pi))
+                    open(pf, 'w').write(gen.fasta(names[cuts[pi]:cuts[pi + 1]], seqs[cuts[pi]:cuts[pi + 1]], ck.rng.choice([60, 7, 100])))
+                    parts.append(pf)
+                inputs, split = ' '.join(parts), True
+                ck.count('file api: records split over %d input files' % len(parts))
             for fmt in ('fasta', 'msf', 'clu'):
                 outp = os.path.join(tmp, 'out%d.%s' % (idx, fmt))
-                lines.append('runfile 0 %d %d %d %d %d %s %s %s' % (c['threads'], c['type'], c['pens'][0], c['pens'][1], c['pens'][2], fmt, outp, inp))
-                meta.append((c, fmt, outp, names, seqs))
+                lines.append('runfile 0 %d %d %d %d %d %s %s %s' % (c['threads'], c['type'], c['pens'][0], c['pens'][1], c['pens'][2], fmt, outp, inputs))
+                meta.append((c, fmt, outp, names, seqs, split))
         impl = ck.run_lines(kvh, lines, timeout=1200)
         ck.evaluations += len(lines)
         ilines, imeta = [], []
-        for (c, fmt, outp, names, seqs), o in zip(meta, impl):
+        for (c, fmt, outp, names, seqs, split), o in zip(meta, impl):
             if not o.startswith('OK') or not os.path.exists(outp):
+                if split:
+                    # a split set may be refused where the single file is accepted (kind decided per file; C04's recorded finding,
+                    # and a first file must hold two records): the property speaks about accepted inputs only
+                    ck.count('file api: split input not accepted (skipped)')
+                    continue
                 out.append((c, fmt, False, 'run failed: ' + o[:100], names))
                 continue
             text = open(outp, encoding='latin-1').read()
